@@ -36,7 +36,7 @@ class SettingsProperty(webdav.Property):
         el.text = resource.get_infit_settings()
 
     async def set_value(self, href: str, resource, el):
-        resource.set_infit_settings(el.text)
+        resource.set_infit_settings(el.text if el is not None else None)
 
 
 class AddressbookColorProperty(webdav.Property):
@@ -53,7 +53,7 @@ class AddressbookColorProperty(webdav.Property):
         el.text = resource.get_addressbook_color()
 
     async def set_value(self, href, resource, el):
-        resource.set_addressbook_color(el.text)
+        resource.set_addressbook_color(el.text if el is not None else None)
 
 
 class HeaderValueProperty(webdav.Property):
